@@ -319,6 +319,15 @@ class Space:
             for idx in itertools.combinations(range(n), r):
                 yield (tag, tuple(syms[i] for i in idx))
 
+    def subcases1(self, case):
+        """sub-cases obtained by deleting exactly ONE symbol (None: the space has no such notion and
+        the full sub-case order is used)"""
+        tag, syms = case[0], case[1]
+        if len(syms) <= 1:
+            return
+        for i in range(len(syms)):
+            yield (tag, tuple(syms[:i] + syms[i + 1 :])) + tuple(case[2:])
+
     def describe(self):
         return {"name": self.name, "size": len(self)}
 
@@ -399,6 +408,7 @@ class UnionSpace(Space):
             t += len(p)
         self._total = t
         self._by_name = {p.name: p for p in self.parts}
+        self.SINGLE_DELETION = all(getattr(p, "SINGLE_DELETION", True) for p in self.parts)
 
     def __len__(self):
         return self._total
@@ -414,6 +424,9 @@ class UnionSpace(Space):
 
     def subcases(self, case):
         return self._by_name[case[0]].subcases(case)
+
+    def subcases1(self, case):
+        return self._by_name[case[0]].subcases1(case)
 
     def key(self, case):
         return self._by_name[case[0]].key(case)
@@ -500,7 +513,21 @@ SIGMA_EMPH = ["*", "_", "a", " "]
 SIGMA_BRACKET = ["[", "]", "(", ")", "a", "!", "/u"]
 # line alphabet for the application-level checks: heading ladders, setext shapes, list ladders,
 # hard breaks - the constructs whose *sequences* (not single occurrences) rules reason about
-SIGMA_MIX = ["", "a", "# a", "## a", "### a", "#### a", "a   ", "===", "---", "- a", "  - a", "1. a"]
+SIGMA_MIX = ["", "a", "# a", "## a", "### a", "#### a", "a   ", "===", "---", "- a", "  - a", "1. a", "---  "]
+# paragraph lines that trigger the inline / line-oriented rules, for rules that track the line within a paragraph
+SIGMA_PARA = ["a", "aaaa bbbb cccc dddd", "a * b * c", "a ` b ` c", "[ a ](u) b", "#a", "a  ", "http://a.b c", ""]
+# list item continuation shapes: what decides tight vs loose and what belongs to the item
+SIGMA_LOOSE = ["- a", "", "  a", "  [l]: /u", "1. a", "   a", "  > a"]
+
+
+def para_space(tier):
+    n = 4 if tier == "thorough" else 3
+    return ProductSpace(f"B(para,{n})", SIGMA_PARA, n)
+
+
+def loose_space(tier):
+    n = 6 if tier == "thorough" else 5
+    return ProductSpace(f"B(loose,{n})", SIGMA_LOOSE, n, minlen=3)
 
 
 def focus_spaces(tier):
@@ -550,4 +577,6 @@ def parser_space(tier, commonmark_only=False):
         parts += inline_wide_space(3, (0, 2, 3), commonmark_only)
     parts += focus_spaces(tier)
     parts.append(ProductSpace(f"B(mli2,{5 if tier == 'thorough' else 4})", SIGMA_MLI2, 5 if tier == "thorough" else 4))
+    parts.append(loose_space(tier))
+    parts.append(para_space(tier))
     return UnionSpace(f"parser-{tier}", parts)
